@@ -48,16 +48,44 @@ def exc_owner_files(exc):
     return out
 
 
+class _Lazy:
+    """site information of a caught exception, computed on demand (extract_tb is slow)"""
+
+    def __init__(self, exc):
+        self.exc = exc
+        self._site = self._files = None
+
+    @property
+    def site(self):
+        if self._site is None:
+            self._site = exc_site(self.exc)
+        return self._site
+
+    @property
+    def files(self):
+        if self._files is None:
+            self._files = exc_owner_files(self.exc)
+        return self._files
+
+
 def call(f, *a, **k):
-    """like common.outcome, but also returns the raising site for exceptions:
-    ('ok', value, None) | ('verr', class name, site) | ('exc', class name, site)"""
+    """like common.outcome, with lazily computed raising site for exceptions:
+    ('ok', value, None) | ('verr', class name, lazy) | ('exc', class name, lazy); use site(o) / owner_files(o)"""
     VE = common.validation_error_class()
     try:
         return ('ok', f(*a, **k), None)
     except VE as e:
-        return ('verr', type(e).__name__, exc_site(e), exc_owner_files(e))
+        return ('verr', type(e).__name__, _Lazy(e))
     except Exception as e:   # noqa: B902
-        return ('exc', type(e).__name__, exc_site(e), exc_owner_files(e))
+        return ('exc', type(e).__name__, _Lazy(e))
+
+
+def site(o):
+    return o[2].site if o[2] is not None else None
+
+
+def owner_files(o):
+    return o[2].files if o[2] is not None else []
 
 
 def fmt_outcome(o):
